@@ -50,7 +50,8 @@ struct Hash64 {
 [[noreturn]] void sim_infra_error(const char* fmt, ...) __attribute__((format(printf, 1, 2)));
 [[noreturn]] void sim_finish_ok();
 void sim_set_last_message(const char* m);
-extern const char* (*g_crash_context)();   // harness: describe what the crashing thread was doing
+extern const char* (*g_crash_context)();
+extern bool (*g_abort_is_expected)();   // harness: an abort() right now is outside the property (debug assertions after a detected misuse)   // harness: describe what the crashing thread was doing
 void sim_note(const char* fmt, ...) __attribute__((format(printf, 1, 2)));  // goes to the trace buffer (only with --trace)
 
 // ---------------------------------------------------------------------------------
